@@ -69,6 +69,10 @@ def perturbed_texts(mnem):
               "E-50000", "E*E*1"[:3], "65535/1", "1/0"):
         for tmpl in ("#{}", "{}", "<{}", ">{}", "[{}]", "{},X", "{},Y", "[{},X]", "{},PCR", "[{},U]"):
             yield tmpl.format(e)
+    # label and symbol expressions in every operand position (each position has its own resolution path)
+    for e in ("L+1", "L-1", "1+L", "L+300", "L-$2001", "E+1", "E-1", "L+E", "L", "E", "ZZ9", "ZZ9-1"):
+        for tmpl in ("#{}", "{}", "<{}", ">{}", "[{}]", "{},X", "{},Y", "{},S", "[{},X]", "[{},U]", "{},PCR", "[{},PCR]", "{},X+", "[{},--Y]"):
+            yield tmpl.format(e)
     for t in ("A,X+", "B,-Y", "D,X++", "A,--S", "5,X+", "5,--Y", "[A,X++]", "[5,--Y]", "#5,X", "#5,PCR", "#,X", ",PCR", "[,PCR]", "A,PCR", "[D,PCR]",
               "[#5,X]", "[#5]", "[#$1234]", "[#L,PCR]", "[#E,Y]", "[#L]", "#L", "<L", ">L", "#5", "<5", ">5"):
         yield t
